@@ -138,6 +138,18 @@ Proof.
     destruct H1 as [<-|[<-|[<-|[]]]], H2 as [<-|[<-|[<-|[]]]]; (now left) || (now right).
 Qed.
 
+(** the hypotheses of C19_replace_structure are met:
+    x = {'a': {'b': 1, 'e': {}}, 'c': 2}, replace = {'a': {'b': 7}}, default -1 *)
+Example C19_replace_example :
+  let x := [([97], Node [([98], Leaf 1); ([101], Node [])]); ([99], Leaf 2)]%Z in
+  let rep := [([97], Node [([98], Leaf 7)])]%Z in
+  wf_dict amp x = true /\
+  replace_with_matching_or_default x rep (-1) true =
+    Some [([97], Node [([98], Leaf 7); ([101], Node [])]); ([99], Leaf (-1))]%Z /\
+  (* an unused replace key is rejected when the check is on *)
+  replace_with_matching_or_default x [([122], Leaf 0)]%Z (-1) true = None.
+Proof. vm_compute. repeat split; reflexivity. Qed.
+
 Print Assumptions C19_unflatten_flatten.
 Print Assumptions C19_unflatten_flatten_paths.
 Print Assumptions C19_dict_eq_is_pathwise.
@@ -151,3 +163,4 @@ Print Assumptions C19_down_up_identity.
 Print Assumptions C19_upsample_coef.
 Print Assumptions C19_hyps_satisfiable.
 Print Assumptions C19_regressions.
+Print Assumptions C19_replace_example.
